@@ -116,6 +116,10 @@ def make_generator(name, seed):
         return jinns.data.DataGeneratorObservations(k, 2, jnp.arange(5.0)[:, None], 10 + jnp.arange(5.0)[:, None], {"a": 20 + jnp.arange(5.0)[:, None]})
     if name == "paramgen":
         return jinns.data.DataGeneratorParameter(k, 6, 3, param_ranges={"a": (0.0, 1.0)}, user_data={"b": _PTAB})
+    if name == "paramgen2":
+        # several sampled parameters, one PRNG key per parameter given as a dictionary written in another order than the ranges
+        ks = jax.random.split(k, 3)
+        return jinns.data.DataGeneratorParameter({"z": ks[0], "m": ks[1], "a": ks[2]}, 6, 3, param_ranges={"a": (2.0, 3.0), "z": (0.0, 1.0), "m": (5.0, 6.0)})
     if name == "multiobs":
         return jinns.data.DataGeneratorObservationsMultiPINNs(2, {"u": jnp.arange(4.0)[:, None], "v": None}, {"u": jnp.arange(4.0)[:, None] + 7, "v": None}, key=k)
     raise ValueError(name)
